@@ -9,7 +9,7 @@ Require Import Base.Py Base.ZList Gen.Gen_tags Model.Splice Model.Fam_carrier Mo
   Proofs.Fam_carrier_lemmas Proofs.Fam_iff_c09.
 Open Scope Z_scope.
 
-(* the callback receives (chunk data size - needed, bytes from the chunk payload to EOF); 0 for a new chunk *)
+(* the callback receives (chunk data size - needed, bytes following the chunk payload); (0 - needed, 0) for a new chunk *)
 Theorem C09_iff_callback_arguments : forall fl, fl_ok fl = true -> forall f s fd ver cb f',
   iff_parse fl f = Ok s -> iff_save_cb fl f fd ver cb = Ok f' ->
   exists tag, id3_prepare fd ver cb (fst (iff_avail fl s)) (snd (iff_avail fl s)) = Ok tag /\ iff_save fl f tag = Ok f'.
@@ -70,7 +70,7 @@ Definition ex_wave : list Z :=
 Definition ex_fd : list Z := [84; 73; 84; 50; 0; 0; 0; 2; 0; 0; 3; 65].
 Example C09_iff_ex_keep : match iff_save_cb wave ex_wave ex_fd 4 cb_keep with Ok f' => zlen f' = zlen ex_wave /\ iff_wf wave f' = true | Raise _ => False end.
 Proof. vm_compute. split; reflexivity. Qed.
-Example C09_iff_ex_info : match iff_target wave ex_wave with Ok t => iff_padinfo wave t ex_fd = (30 - 22, 30 + 8 + 3 + 1) | Raise _ => False end.
+Example C09_iff_ex_info : match iff_target wave ex_wave with Ok t => iff_padinfo wave t ex_fd = (30 - 22, 8 + 3 + 1) | Raise _ => False end.
 Proof. vm_compute. reflexivity. Qed.
 Example C09_iff_ex_zero : match iff_save_cb wave ex_wave ex_fd 4 (cb_const 0) with Ok f' => zlen f' = zlen ex_wave - 8 | Raise _ => False end.
 Proof. vm_compute. reflexivity. Qed.
